@@ -171,6 +171,46 @@ Theorem repair_R3_witness :
 Proof. exact witness_R3_facts. Qed.
 Print Assumptions repair_R3_witness.
 
+(* R6: the plan's continuous group is durably Failed while a block is executing: fixPlan marks the plan Failed but
+   does not return, the block stays Running (nothing in it failed), Recovery goes to End: the block is abandoned
+   Running, its unstarted sequence and its deferred group never run *)
+Theorem repair_R6_refuted :
+  ~ (forall (run_seq : seq -> seq) (p : pln), pl_st p = Running -> recovery_entry run_seq p = EEnd ->
+       no_running_block (fp_pln (fix_plan run_seq p)) = true).
+Proof. exact R6_refuted. Qed.
+Print Assumptions repair_R6_refuted.
+
+Theorem repair_R6_witness :
+  forall run_seq : seq -> seq,
+    pl_st witness_R6 = Running
+    /\ checks_failed (pl_cont witness_R6) = true
+    /\ recovery_entry run_seq witness_R6 = EEnd
+    /\ pl_st (fp_pln (fix_plan run_seq witness_R6)) = Failed
+    /\ fp_resumed (fix_plan run_seq witness_R6) = []
+    /\ no_running_block (fp_pln (fix_plan run_seq witness_R6)) = false
+    /\ (exists b s c, get_blk (fp_pln (fix_plan run_seq witness_R6)) 0 = Some b /\ bk_st b = Running
+                      /\ nth_error (bk_seqs b) 1 = Some s /\ sq_st s = NotStarted
+                      /\ bk_deferred b = Some c /\ ck_st c = NotStarted).
+Proof. exact witness_R6_facts. Qed.
+Print Assumptions repair_R6_witness.
+
+(* R5 (repair side): the image a second crash leaves behind - a sequence durably Running, all its actions Completed,
+   inside a block durably Completed - is not repaired (fixBlock ignores blocks that are not Running): the plan is
+   Completed, entry End, with a Running sequence.  That the image IS left behind (the first recovery repairs the
+   sequence only in memory) is the engine's part: the harness takes the image from a real recovery on every run. *)
+Theorem repair_R5_witness :
+  forall run_seq : seq -> seq,
+    pl_st witness_R5 = Running
+    /\ recovery_entry run_seq witness_R5 = EEnd
+    /\ pl_st (fp_pln (fix_plan run_seq witness_R5)) = Completed
+    /\ fp_resumed (fix_plan run_seq witness_R5) = []
+    /\ no_running_sequence (fp_pln (fix_plan run_seq witness_R5)) = false
+    /\ (exists b s, get_blk (fp_pln (fix_plan run_seq witness_R5)) 0 = Some b /\ bk_st b = Completed
+                    /\ nth_error (bk_seqs b) 0 = Some s /\ sq_st s = Running
+                    /\ Forall (fun a => ac_st a = Completed) (sq_acts s)).
+Proof. exact witness_R5_facts. Qed.
+Print Assumptions repair_R5_witness.
+
 (* ------------------------------------------------------------------ non-vacuity
    The contract is met by the scripted execution the correspondence check uses (so every theorem above applies
    to it), and the hypotheses hold on the concrete image FixExamples.ex_image (a finished block, a finished
